@@ -312,4 +312,170 @@ theorem inorder_insert (x : Nat) : ∀ t, Bst t → inorder (insert t x) = oins 
         rw [oins_same _ _ _ hlk]
 
 #print axioms inorder_insert
+
+/-! ### deletion (`deleteNode` + `rebalance`, with the two-children branch rebalanced) -/
+
+def balL (t : T) : Bool := ht (lft t) ≥ ht (rgt t)     -- balance(n) ≥ 0
+def balR (t : T) : Bool := ht (rgt t) ≥ ht (lft t)     -- balance(n) ≤ 0
+
+/-- `rebalance(n)` applied to a node whose children are l and r -/
+def rebalance (l : T) (k : Nat) (r : T) : T :=
+  if ht l > ht r + 1 then
+    (if balL l then rotR (mk l k r) else rotR (mk (rotL l) k r))
+  else if ht r > ht l + 1 then
+    (if balR r then rotL (mk l k r) else rotL (mk l k (rotR r)))
+  else mk l k r
+
+def minKey : T → Nat
+| nil => 0
+| node nil k _ _ => k
+| node l _ _ _ => minKey l
+
+def delete : T → Nat → T
+| nil, _ => nil
+| node l k _ r, x =>
+  if x < k then rebalance (delete l x) k r
+  else if k < x then rebalance l k (delete r x)
+  else
+    match l, r with
+    | nil, _ => r
+    | _, nil => l
+    | _, _ => rebalance l (minKey r) (delete r (minKey r))
+
+theorem rebalance_avl {l r : T} {hl hr : Nat} (k : Nat) (al : IsAvl l hl) (ar : IsAvl r hr)
+    (h1 : hl ≤ hr + 2) (h2 : hr ≤ hl + 2) :
+    ∃ h', IsAvl (rebalance l k r) h' ∧
+      (h' = max hl hr + 1 ∨ (h' = max hl hr ∧ (hl = hr + 2 ∨ hr = hl + 2))) := by
+  unfold rebalance
+  rw [al.ht_eq, ar.ht_eq]
+  by_cases hL : hl > hr + 1
+  · simp only [hL, if_true]
+    have hl2 : hl = hr + 2 := by omega
+    subst hl2
+    cases al with
+    | node aa ab c1 c2 e =>
+    rename_i a b k' ha hb
+    simp only [balL, lft, rgt, aa.ht_eq, ab.ht_eq]
+    by_cases hb0 : ha ≥ hb
+    · -- single right rotation
+      simp only [hb0, decide_true, if_true, rotR, mk]
+      have ha1 : ha = hr + 1 := by omega
+      subst ha1
+      have B := isAvl_mk k ab ar (by omega) (by omega)
+      have C := isAvl_mk k' aa B (by omega) (by omega)
+      refine ⟨_, by simpa [mk, aa.ht_eq, ab.ht_eq, ar.ht_eq] using C, ?_⟩
+      have hcase : hb = hr + 1 ∨ hb = hr := by omega
+      rcases hcase with rfl | rfl
+      · left; omega
+      · right; constructor
+        · omega
+        · first | trivial | (left; rfl) | simp
+    · -- double rotation
+      have hb0' : ¬ ha ≥ hb := hb0
+      simp only [hb0', decide_false, if_false]
+      have hb1 : hb = hr + 1 := by omega
+      have ha1 : ha = hr := by omega
+      subst hb1 ha1
+      cases ab with
+      | node ac ad d1 d2 e'' =>
+      rename_i bl br bk hc hd
+      have A := isAvl_mk k' aa ac (by omega) (by omega)
+      have B := isAvl_mk k ad ar (by omega) (by omega)
+      have C := isAvl_mk bk A B (by omega) (by omega)
+      refine ⟨max (max ha hc + 1) (max hd ha + 1) + 1, ?_, ?_⟩
+      · simpa [mk, rotL, rotR, ht, aa.ht_eq, ac.ht_eq, ad.ht_eq, ar.ht_eq, A.ht_eq, B.ht_eq] using C
+      · right; constructor
+        · omega
+        · first | trivial | (left; rfl) | simp
+  · simp only [hL, if_false]
+    by_cases hR : hr > hl + 1
+    · simp only [hR, if_true]
+      have hr2 : hr = hl + 2 := by omega
+      subst hr2
+      cases ar with
+      | node aa ab c1 c2 e =>
+      rename_i a b k' ha hb
+      simp only [balR, lft, rgt, aa.ht_eq, ab.ht_eq]
+      by_cases hb0 : hb ≥ ha
+      · simp only [hb0, decide_true, if_true, rotL, mk]
+        have hb1 : hb = hl + 1 := by omega
+        subst hb1
+        have A := isAvl_mk k al aa (by omega) (by omega)
+        have C := isAvl_mk k' A ab (by omega) (by omega)
+        refine ⟨_, by simpa [mk, al.ht_eq, aa.ht_eq, ab.ht_eq] using C, ?_⟩
+        have hcase : ha = hl + 1 ∨ ha = hl := by omega
+        rcases hcase with rfl | rfl
+        · left; omega
+        · right; constructor
+          · omega
+          · first | trivial | (right; rfl) | simp
+      · have hb0' : ¬ hb ≥ ha := hb0
+        simp only [hb0', decide_false, if_false]
+        have ha1 : ha = hl + 1 := by omega
+        have hb1 : hb = hl := by omega
+        subst ha1 hb1
+        cases aa with
+        | node ac ad d1 d2 e'' =>
+        rename_i bl br bk hc hd
+        have A := isAvl_mk k al ac (by omega) (by omega)
+        have B := isAvl_mk k' ad ab (by omega) (by omega)
+        have C := isAvl_mk bk A B (by omega) (by omega)
+        refine ⟨max (max hb hc + 1) (max hd hb + 1) + 1, ?_, ?_⟩
+        · simpa [mk, rotL, rotR, ht, al.ht_eq, ac.ht_eq, ad.ht_eq, ab.ht_eq, A.ht_eq, B.ht_eq] using C
+        · right; constructor
+          · omega
+          · first | trivial | (right; rfl) | simp
+    · simp only [hR, if_false]
+      have N := isAvl_mk k al ar (by omega) (by omega)
+      exact ⟨_, by simpa [mk, al.ht_eq, ar.ht_eq] using N, Or.inl rfl⟩
+
+#print axioms rebalance_avl
+
+/-- deletion keeps the tree AVL with exact heights; the height stays or drops by one -/
+theorem delete_avl : ∀ (t : T) (x : Nat) (h : Nat), IsAvl t h →
+    ∃ h', IsAvl (delete t x) h' ∧ (h' = h ∨ h' + 1 = h) := by
+  intro t
+  induction t with
+  | nil => intro x h a; cases a; exact ⟨0, .nil, Or.inl rfl⟩
+  | node l k hh r ihl ihr =>
+    intro x h a
+    cases a with
+    | node al ar b1 b2 e =>
+    rename_i hl hr
+    simp only [delete]
+    by_cases hlt : x < k
+    · simp only [hlt, if_true]
+      obtain ⟨hl', al', hch⟩ := ihl x hl al
+      obtain ⟨h', av, hh'⟩ := rebalance_avl k al' ar (by omega) (by omega)
+      refine ⟨h', av, ?_⟩
+      rcases hch with rfl | hch <;> rcases hh' with hh' | ⟨hh', hq⟩ <;> omega
+    · simp only [hlt, if_false]
+      by_cases hgt : k < x
+      · simp only [hgt, if_true]
+        obtain ⟨hr', ar', hch⟩ := ihr x hr ar
+        obtain ⟨h', av, hh'⟩ := rebalance_avl k al ar' (by omega) (by omega)
+        refine ⟨h', av, ?_⟩
+        rcases hch with rfl | hch <;> rcases hh' with hh' | ⟨hh', hq⟩ <;> omega
+      · simp only [hgt, if_false]
+        -- remove this node
+        cases al with
+        | nil =>
+          -- no left child: the right child takes its place
+          refine ⟨hr, ar, ?_⟩
+          omega
+        | node al1 al2 c1 c2 e1 =>
+          rename_i ll lr lk hl1 hl2
+          cases ar with
+          | nil =>
+            refine ⟨_, .node al1 al2 c1 c2 e1, ?_⟩
+            omega
+          | node ar1 ar2 d1 d2 e2 =>
+            rename_i rl rr rk hr1 hr2
+            simp only
+            obtain ⟨hr', ar', hch⟩ := ihr (minKey (node rl rk hr rr)) hr (.node ar1 ar2 d1 d2 e2)
+            obtain ⟨h', av, hh'⟩ := rebalance_avl (minKey (node rl rk hr rr)) (.node al1 al2 c1 c2 e1) ar' (by omega) (by omega)
+            refine ⟨h', av, ?_⟩
+            rcases hch with rfl | hch <;> rcases hh' with hh' | ⟨hh', hq⟩ <;> omega
+
+#print axioms delete_avl
 end Avl
